@@ -229,7 +229,10 @@ class MHLHistory:
 
         file_path = os.path.join(asc_mhl_folder_path, ascmhl_chainfile_name)
         if os.path.exists(asc_mhl_folder_path) and not os.path.exists(file_path):
-            raise errors.NoMHLChainException(file_path)
+            # an ascmhl folder that does not contain any manifest (e.g. left behind by an interrupted first run)
+            # is not a history yet
+            if any(name.endswith(ascmhl_file_extension) for name in os.listdir(asc_mhl_folder_path)):
+                raise errors.NoMHLChainException(file_path)
         history.chain = chain_xml_parser.parse(file_path)
         if history.chain.generations:
             for generation in history.chain.generations:
